@@ -26,6 +26,7 @@
      If                                                <<test, then, else>>
      Const      kind                    n/d            <<>>
      Str        text                                   <<>>
+     Lit        kind         text                      <<>>                 numeric literal as exact text (C18)
      Var        name                                   <<>>
      Tuple/List                         n              <<x1..xn>>
      Dict                               n              <<key1, x1, .., keyn, xn>>  keys are Str
@@ -150,6 +151,9 @@ Denote(q, env, ev) ==
     [] q.k = "Var" -> Lookup(env, q.a)
     [] q.k = "Const" -> Num(q.a, q.n, q.d)
     [] q.k = "Str" -> StrV(q.a)
+    \* C18: a numeric literal carried as its exact text (too wide for TLC's integers, or a float
+    \* in Python's repr); its value IS that text
+    [] q.k = "Lit" -> [t |-> "lit", s |-> q.b]
     [] q.k = "Coll" ->
          IF HasBank(ev, q.a, q.b) THEN BankObjs(ev, q.a, q.b) ELSE Fault("retrieve_failed")
     [] q.k = "Single" ->       \* a singleton collection: the one object of the bank
@@ -271,7 +275,8 @@ Rows(q, ev) ==
 RECURSIVE CellClose(_, _)
 \* obs: logged cell [k |-> "s" scalar | "v" vector, s, f, v |-> <<cells>>]; exp: expected value
 CellClose(obs, exp) ==
-  IF exp.t = "num" THEN obs.k = "s" /\ CloseNum(obs, exp)
+  IF exp.t = "lit" THEN obs.k = "s" /\ "r" \in DOMAIN obs /\ obs.r = exp.s
+  ELSE IF exp.t = "num" THEN obs.k = "s" /\ CloseNum(obs, exp)
   ELSE IF exp.t = "seq"
   THEN /\ obs.k = "v"
        /\ Len(obs.v) = Len(exp.v)
@@ -310,6 +315,10 @@ TypeOf(q, tenv, sig) ==
     [] q.k = "Var" -> Lookup(tenv, q.a)
     [] q.k = "Const" -> NumT({q.a})
     [] q.k = "Str" -> [t |-> "str"]
+    [] q.k = "Lit" -> IF q.a = "float" THEN NumT({"double"})
+                      ELSE IF q.a = "int" THEN NumT({"int"})
+                      ELSE IF q.a = "bool" THEN NumT({"bool"})
+                      ELSE NumT({"int", "long", "long long", "unsigned long", "unsigned long long", "int64_t", "uint64_t"})
     [] q.k = "Coll" -> SeqT(ObjT(sig.collClass[q.a]))
     [] q.k = "Single" -> ObjT(sig.collClass[q.a])
     [] q.k = "Meth" ->
